@@ -48,6 +48,8 @@ structure Policy where
   minRelayFee : Nat
   disablePriority : Bool
   freeRelay : Bool       -- true: the rate limiter never rejects; false: it always rejects
+  minStdSize : Nat       -- MinStandardTxNonWitnessSize: relay-policy tuning, read from the tree, not pinned
+  blockPrioritySize : Nat -- DefaultBlockPrioritySize: internal tuning, read from the tree, not pinned
 deriving Repr
 
 /-! ### chain view -/
@@ -108,8 +110,6 @@ def Pool.spender (s : Pool) (x : OutPoint) : Option TxAbs := (s.spent.find? (fun
 
 def maxRBFSequence : Nat := 0xfffffffd
 def maxReplacementEvictions : Nat := 100
-def minStandardTxNonWitnessSize : Nat := 65
-def defaultBlockPrioritySize : Nat := 50000
 def lockTimeThreshold : Nat := 500000000
 def maxSatoshi : Nat := 2100000000000000
 def maxSeq : Nat := 0xffffffff
@@ -320,7 +320,7 @@ def immature (c : Chain) (x : OutPoint) : Bool :=
 /-- `validateRelayFeeMet` (rate limiter abstracted to `freeRelay`). -/
 def relayFeeMet (pol : Policy) (t : TxAbs) (isNew rateLimit : Bool) : Bool :=
   let minFee := minRelayFeeFor t.vsize pol.minRelayFee
-  if t.vsize ≥ defaultBlockPrioritySize - 1000 ∧ t.fee < minFee then false
+  if t.vsize ≥ pol.blockPrioritySize - 1000 ∧ t.fee < minFee then false
   else if t.fee ≥ minFee then true
   else if !isNew && !rateLimit then true
   else if isNew && !pol.disablePriority && !t.highPrio then false
@@ -355,7 +355,7 @@ def checkFetched (pol : Policy) (c : Chain) (s : Pool) (t : TxAbs) (isNew rateLi
 def checkAccept (pol : Policy) (c : Chain) (s : Pool) (t : TxAbs)
     (isNew rateLimit rejectDupOrphans : Bool) : CheckRes :=
   if s.inPool t.id || (rejectDupOrphans && s.inOrphans t.id) then .err .dup
-  else if t.ssize < minStandardTxNonWitnessSize then .err .nonstd
+  else if t.ssize < pol.minStdSize then .err .nonstd
   else if !t.sane || !decide t.ins.Nodup then .err .invalid
   else if t.coinbase then .err .invalid
   else if !isFinal t (c.height + 1) c.mtp then .err .nonstd
